@@ -7,6 +7,7 @@ import (
 	"go/token"
 	"go/types"
 	"golang.org/x/tools/go/packages"
+	"golang.org/x/tools/go/ssa"
 	"regexp"
 	"sort"
 	"strings"
@@ -104,6 +105,76 @@ func checkC15(c *Ctx) {
 	r.Rule("C15.O2", "mapping key lists are returned sorted; parser map ranges are order-insensitive", 1)
 	r.Rule("C15.O3", "prefix resolution: defaults overlaid by profile prefixes; no hard-coded prefix names; lookup only through the context", 3)
 	r.Rule("C15.O4", "only Kind, Tag, Value and Content of YAML nodes decide anything", 1)
+
+	// ---- O6: reordering the operands of and/or cannot matter only if every operand survives: the generator sorts the operand
+	// lists, so a filter applied after sorting (duplicates by text) keeps a different operand for a different spelling
+	r.Rule("C15.O6", "operand lists of and/or are only permuted, never filtered, between the profile text and the generated code", 3)
+	if m01, err := loadC01Model(p); err != nil {
+		r.Unknown("C15.O6", "model", "", err.Error())
+	} else {
+		operandsKept(c, m01, "C15.O6")
+	}
+
+	// ---- O5: quoting, escapes and block styles are decoded by yaml.v3; that only holds when yaml.v3 sees the profile text
+	// itself. Editing the text first (expanding tabs, trimming, replacing) changes scalars written with one quoting style and
+	// not the same scalars written with another.
+	r.Rule("C15.O5", "the YAML decoder is handed the caller's text, converted but not rewritten", 1)
+	o5 := 0
+	for _, fn := range p.ModuleFuncs() {
+		if strings.HasSuffix(p.Fset.Position(fn.Pos()).Filename, "_test.go") {
+			continue
+		}
+		for _, b := range fn.Blocks {
+			for _, ins := range b.Instrs {
+				ci, ok := ins.(ssa.CallInstruction)
+				if !ok {
+					continue
+				}
+				n := funcFullName(ssaCalleeObj(ci))
+				if n != yamlPath+".Unmarshal" && n != "(*"+yamlPath+".Decoder).Decode" && n != yamlPath+".NewDecoder" {
+					continue
+				}
+				if len(ci.Common().Args) == 0 {
+					continue
+				}
+				o5++
+				origin := ci.Common().Args[0]
+				for {
+					switch x := origin.(type) {
+					case *ssa.Convert:
+						origin = x.X
+						continue
+					case *ssa.ChangeType:
+						origin = x.X
+						continue
+					case *ssa.MakeInterface:
+						origin = x.X
+						continue
+					case *ssa.Call:
+						// bytes.NewReader(b) / strings.NewReader(s) / bytes.NewBuffer(b): a reader over the same text
+						switch funcFullName(ssaCalleeObj(x)) {
+						case "bytes.NewReader", "strings.NewReader", "bytes.NewBuffer", "bytes.NewBufferString":
+							origin = x.Call.Args[0]
+							continue
+						}
+					}
+					break
+				}
+				prm, isParam := origin.(*ssa.Parameter)
+				why := "the text handed to the YAML decoder is " + origin.String() + ", not the caller's text"
+				if isParam {
+					// and every caller passes its own parameter on, up to the exported entry points
+					if okUp, w := textPassedThrough(p, fn, prm, 0, map[*ssa.Function]bool{}); !okUp {
+						isParam, why = false, w
+					}
+				}
+				r.Check(isParam, "C15.O5", FuncKey(fn)+"#decoded-text", p.Pos(ins.Pos()), "yaml.v3 decodes the text the entry point was given (passed through unchanged)", why+": rewriting the text before decoding changes scalars depending on how they are quoted (a literal tab inside '…' versus \\t inside \"…\")")
+			}
+		}
+	}
+	if o5 == 0 {
+		r.Unknown("C15.O5", "yaml-decode-sites", "", "no call of yaml.Unmarshal / Decoder.Decode in the module")
+	}
 
 	// ---- O1
 	collectYamlContentAliases(p)
@@ -623,4 +694,101 @@ func defaultPrefixTable(p *Prog) (map[string]bool, *types.Var, *packages.Package
 		defaultVar = v
 	}
 	return defaults, defaultVar, ctxPk
+}
+
+// textPassedThrough: every module caller of fn passes, at prm's position, one of its own parameters (possibly converted
+// between string and []byte), recursively up to functions that nobody in the module calls.
+func textPassedThrough(p *Prog, fn *ssa.Function, prm *ssa.Parameter, depth int, seen map[*ssa.Function]bool) (bool, string) {
+	if depth > 8 || seen[fn] {
+		return true, ""
+	}
+	seen[fn] = true
+	idx := -1
+	for i, q := range fn.Params {
+		if q == prm {
+			idx = i
+		}
+	}
+	if idx < 0 {
+		return true, ""
+	}
+	for _, caller := range p.ModuleFuncs() {
+		if strings.HasSuffix(p.Fset.Position(caller.Pos()).Filename, "_test.go") || strings.HasSuffix(p.Fset.Position(caller.Pos()).Filename, "test_utils.go") {
+			continue
+		}
+		for _, b := range caller.Blocks {
+			for _, ins := range b.Instrs {
+				ci, ok := ins.(ssa.CallInstruction)
+				if !ok || ci.Common().StaticCallee() != fn || idx >= len(ci.Common().Args) {
+					continue
+				}
+				origin := ci.Common().Args[idx]
+				for {
+					switch x := origin.(type) {
+					case *ssa.Convert:
+						origin = x.X
+						continue
+					case *ssa.ChangeType:
+						origin = x.X
+						continue
+					}
+					break
+				}
+				switch x := origin.(type) {
+				case *ssa.Parameter:
+					if ok, why := textPassedThrough(p, caller, x, depth+1, seen); !ok {
+						return false, why
+					}
+				case *ssa.Const:
+				default:
+					// text produced on the way (file contents in the commands, test fixtures) is fine when it does not derive
+					// from a parameter of the caller: only edits of the caller's own text are the concern
+					if derivesFromParam(origin, 0) {
+						return false, FuncKey(caller) + " passes " + origin.String() + " (computed from its own text parameter) to " + FuncKey(fn)
+					}
+				}
+			}
+		}
+	}
+	return true, ""
+}
+
+func derivesFromParam(v ssa.Value, depth int) bool {
+	if depth > 6 || v == nil {
+		return false
+	}
+	switch x := v.(type) {
+	case *ssa.Parameter:
+		t := x.Type().Underlying()
+		if b, ok := t.(*types.Basic); ok && b.Info()&types.IsString != 0 {
+			return true
+		}
+		if sl, ok := t.(*types.Slice); ok {
+			if b, ok := sl.Elem().Underlying().(*types.Basic); ok && b.Kind() == types.Uint8 {
+				return true
+			}
+		}
+		return false
+	case *ssa.Call:
+		for _, a := range x.Call.Args {
+			if derivesFromParam(a, depth+1) {
+				return true
+			}
+		}
+	case *ssa.Convert:
+		return derivesFromParam(x.X, depth+1)
+	case *ssa.BinOp:
+		return derivesFromParam(x.X, depth+1) || derivesFromParam(x.Y, depth+1)
+	case *ssa.Phi:
+		for _, e := range x.Edges {
+			if derivesFromParam(e, depth+1) {
+				return true
+			}
+		}
+	case *ssa.Slice:
+		return derivesFromParam(x.X, depth+1)
+	case *ssa.Extract:
+		return derivesFromParam(x.Tuple, depth+1)
+	}
+	return false
 }
